@@ -16,7 +16,7 @@ CHECKS = {
          "Exactly-once-valid is required in the epoch-causal regime only (future-epoch messages are outside the stated windows); scenario bounds as C01; default MdkConfig in quick.",
          "3/C02"),
  "C07": ("E1 mdkx", "model_checking",
-         "edge property on every explored per-member graph: every deliver(e) edge whose event already took effect in the source state must leave the observable fingerprint unchanged",
+         "edge property on every explored per-member graph: every deliver(e) edge whose event already took effect in the source state must leave the observable fingerprint unchanged; plus an enumerated sender-side history (backend x rumor time x peer message before/between/never x 1..3 echoes of an own message) comparing every stored field incl. the wall-clock processing time",
          "Because every pool event is enabled in every state, re-delivery at any later point and any repetition count is part of each graph; each such edge is checked.",
          "'Already taken effect' is decided from the dedup record, the pending-commit flag and the scenario's fork tree; graphs as C01/C02.",
          "3/C07"),
@@ -57,7 +57,7 @@ CHECKS = {
          "3/C13"),
  "C19": ("E3 sched", "model_checking",
          "stateless depth-first exploration of every schedule of real threads under a controlled scheduler (schedule points = every lock acquisition of the backend: memory RwLocks, SQLite connection mutex; a thread is enabled when its lock is free), one real execution per schedule, for every program set over three colliding operation alphabets (groups/relays/secrets, snapshots/MLS state, messages/dedup): shapes 1+1, 2+1, 1+1+1 (quick) plus 2+2, 2+1+1, 3+1 (thorough) on both backends; plus concurrent first opens of one database path (yield points in the SQLite constructors, preemption bound 2-3)",
-         "Oracle per schedule: the call results, the full read surface afterwards, and the read surface after rolling back to the snapshot the threads may have taken, equal those of some sequential order of the calls that respects program order and real-time order (computed by running every order on the same backend); deadlock (no enabled thread) and panics are findings.",
+         "Oracle per schedule: the call results, the full read surface afterwards, and the read surface after rolling back to the snapshot the threads may have taken, equal those of some sequential order of the calls that respects program order and real-time order (computed by running every order on the same backend); when one thread works on group 1 only, the other threads' results and group 0's readable state must equal what those threads alone produce in some order (non-interference, judged against runs without the bystander); a memory instance with per-group message capacity 2 is one of the backends; deadlock (no enabled thread) and panics are findings.",
          "Interleavings inside a lock section and inside SQLite are not explored (the backends hold one lock per section; unsynchronised access is excluded by safe Rust). Schedules are complete for the stated program shapes, not for longer programs; concurrent opens use a preemption bound.",
          "3/C19"),
  "C04": ("E1 lab + adversary toolkit", "model_checking",
@@ -66,12 +66,12 @@ CHECKS = {
          "Field domains are small representative sets (3 pubkeys, 6 id modes, 4 kinds, 2 tag sets, 3 timestamps); base states are scripted, not searched.",
          "3/C04"),
  "C05": ("E1 lab + adversary toolkit", "model_checking",
-         "exhaustive product enumeration on real clients: sender role x commit content built directly with the OpenMLS commit builder x queued foreign proposal x receiver role x base state; every stand-alone proposal kind; every foreign proposal kind queued at an honest admin x every admin operation",
+         "exhaustive product enumeration on real clients: sender role x commit content built directly with the OpenMLS commit builder x queued foreign proposal x receiver role x base state; every stand-alone proposal kind; every foreign proposal kind queued at an honest admin x every admin operation; an admin's commits with raw group-data bytes (hostile encodings x receiver x base state; the same fields under format versions 1/3/7 followed by an honest rename)",
          "Verdict (accept/refuse) and roster/data delta of every case are compared with what the scenario defines; refusals must leave the fingerprint unchanged.",
          "PSK commits are not buildable through the public API and are not covered; outsider commits are covered by C06 (garbage) only.",
          "3/C05"),
  "C16": ("E1 mdkx + adversary toolkit", "model_checking",
-         "explicit-state BFS of the recipient's graph with process/accept/decline of every invitation (original, replayed under a new wrapper id, attacker-made group reusing the MLS group id, attacker group claiming the real Nostr group id) enabled in every state, for recipients that are not members, pending, active, evicted",
+         "explicit-state BFS of the recipient's graph with process/accept/decline of every invitation (original, replayed under a new wrapper id, attacker-made group reusing the MLS group id, attacker group claiming the real Nostr group id) enabled in every state, for recipients that are not members, pending, active, evicted; plus enumerated joiner-goes-on histories (role x first own operation: the rotation obligation survives every other own commit, an invitation made by a joiner is usable and lands in the inviter's state)",
          "Idempotence, consent-gating, joiner == inviter state and non-interference with existing groups are checked on every edge; later events are compared differentially with and without the invitation.",
          "Quick tier offers accept/decline only while the stored welcome is pending and caps graphs at 3000 states; thorough lifts both.",
          "3/C16"),
